@@ -7,7 +7,7 @@ From Mos Require Import model.I64 Gen.BinOps model.Expr Gen.OpcodeTable spec.Isa
 From Mos Require Import model.SymTab Gen.CodegenConsts model.Segment model.Asm.
 
 Definition core (c : ctx) :=
-  (pass_idx c, segments c, current_segment c, symbols c, undefined c, current_scope c, current_scope_nx c, next_macro_scope_id c).
+  (pass_idx c, segments c, current_segment c, symbols c, undefined c, changed c, current_scope c, current_scope_nx c, next_macro_scope_id c).
 Definition E (c c' : ctx) : Prop := core c = core c'.
 
 Lemma E_refl c : E c c. Proof. reflexivity. Qed.
@@ -29,8 +29,8 @@ Ltac ctx_eq :=
       destruct c, c'; unfold E, core in H; cbn in H; inversion H; subst; clear H
   end.
 Ltac fields :=
-  cbn [pass_idx segments current_segment symbols undefined current_scope current_scope_nx next_macro_scope_id g_vch g_trace
-       set_symbols set_segments set_undefined set_scope set_macro_id bump_vch log flag_undefined] in *.
+  cbn [pass_idx segments current_segment symbols undefined changed current_scope current_scope_nx next_macro_scope_id g_vch g_trace
+       set_symbols set_segments set_undefined set_changed set_scope set_macro_id bump_vch log flag_undefined flag_changed] in *.
 
 Ltac fin := cbn; unfold E, core; cbn; repeat split; try reflexivity; auto.
 
@@ -222,23 +222,25 @@ Proof.
   match goal with H1 : current_scope c = current_scope c', H2 : current_scope_nx c = current_scope_nx c' |- _ => rewrite H1, H2 end. sm.
 Qed.
 
+Ltac sm2 :=
+  repeat match goal with
+    | |- SimM (evaluate_expression_as_i64 _) (evaluate_expression_as_i64 _) => apply sim_eval_i64
+    | |- SimM (evaluate_expression_as_string _) (evaluate_expression_as_string _) => apply sim_eval_string
+    | |- SimM (bind _ _) (bind _ _) => apply sim_bind; [|intro]
+    | |- SimM (ret _) (ret _) => apply sim_ret
+    | |- SimM (fail _) (fail _) => apply sim_fail
+    | |- SimM (err1 _ _ _ _) (err1 _ _ _ _) => apply sim_fail
+    | |- SimM (abort _) (abort _) => apply sim_abort
+    | |- SimM (modify _) (modify _) =>
+        apply sim_modify; intros ? ? ?;
+        first [apply core_enter | apply core_leave | apply core_install | apply core_setpc | apply core_select | apply core_bump | apply core_flag]; assumption
+    | |- SimM (recover _ _) (recover _ _) => apply sim_recover
+    | |- SimM (match ?x with _ => _ end) (match ?x with _ => _ end) => destruct x
+    | |- SimM (if ?b then _ else _) (if ?b then _ else _) => destruct b
+    end.
+
 Lemma sim_define_segment sp l : SimM (define_segment sp l) (define_segment sp l).
-Proof.
-  unfold define_segment. destruct (validate_segment sp l); [|apply sim_fail].
-  apply sim_bind.
-  { destruct (try_get_expression l t_name); [|sm]. apply sim_bind; [apply sim_eval_string|intro]. destruct a; [|sm].
-    destruct (existsb (N.eqb 46) t); sm. }
-  intro name. apply sim_bind.
-  { destruct (try_get_expression l t_start); [|sm]. apply sim_bind; [apply sim_recover; apply sim_eval_i64|intro]. sm. }
-  intro ip. apply sim_bind.
-  { destruct (try_get_expression l t_write); [|sm]. apply sim_bind; [apply sim_eval_i64|intro]. sm. }
-  intro w. apply sim_bind.
-  { destruct (try_get_expression l t_bank); [|sm]. apply sim_bind; [apply sim_eval_string|intro]. destruct a; [|sm].
-    destruct (existsb (N.eqb 46) t); sm. }
-  intro bank. apply sim_bind.
-  { destruct (try_get_expression l t_pc); [|sm]. apply sim_bind; [apply sim_eval_i64|intro]. sm. }
-  intro tg. sm.
-Qed.
+Proof. unfold define_segment. destruct (validate_segment sp l); [|apply sim_fail]. sm2. Qed.
 
 Lemma sim_loop_iterations body body' : (forall i, SimM (body i) (body' i)) -> forall fuel i n, SimM (loop_iterations fuel i n body) (loop_iterations fuel i n body').
 Proof.
@@ -326,12 +328,17 @@ Proof.
     apply sim_get_bind; intros c c' H. same_core H.
     match goal with H1 : symbols c = symbols c', H2 : current_scope_nx c = current_scope_nx c', H3 : next_macro_scope_id c = next_macro_scope_id c' |- _ =>
       rewrite H1, H2, H3 end.
+    apply sim_bind; [sm|intro].
     destruct (query_all (symbols c') (current_scope_nx c') [id]); [|apply sim_abort].
     destruct (find_macro (symbols c') l) as [[[sp params] body]|]; [|sm].
     destruct (negb (length args =? length params)%nat); [apply sim_fail|].
-    apply sim_bind; [sm|intro]. apply sim_bind; [apply sim_eval_macro_args|intro]. apply sim_with_scope.
+    apply sim_bind; [apply sim_eval_macro_args|intro]. apply sim_with_scope.
     apply sim_bind; [apply sim_bind_macro_args|intro; apply Hts].
-  - (* TPc *) apply sim_bind; [apply sim_eval_i64|intros v]. destruct v; sm.
+  - (* TPc *) apply sim_bind; [apply sim_eval_i64|intros v]. destruct v; [|sm].
+    match goal with |- SimM (if ?b then _ else _) _ => destruct b; [sm|] | _ => idtac end.
+    first [ apply sim_get_bind; intros c c' H; same_core H;
+            match goal with H1 : segments c = segments c', H2 : current_segment c = current_segment c' |- _ => rewrite H1, H2 end; sm2
+          | sm ].
   - (* TSegment *)
     apply sim_bind; [apply sim_eval_string|intros s]. destruct s; [|apply sim_ret].
     destruct (existsb (N.eqb 46) t); [apply sim_fail|]. apply sim_get_bind; intros c c' H. same_core H.
